@@ -224,3 +224,42 @@ func Stress(rng *mon.Rand, opsPerG int) *StressResult {
 	}
 	return res
 }
+
+// CloseStorm releases G goroutines at once onto Close of the same fresh Reassembler, n times.
+// Exactly one Close must return nil each time and the one buffered message must be delivered once.
+func CloseStorm(n, G int) (rounds int64, findings []Finding) {
+	Install()
+	for i := 0; i < n && len(findings) == 0; i++ {
+		st := &stressStream{}
+		r, err := libaudit.NewReassembler(5, time.Hour, st)
+		if err != nil {
+			return rounds, []Finding{{"new-error", err.Error()}}
+		}
+		st.r = r
+		t := &tag{seq: 1}
+		r.PushMessage(&auparse.AuditMessage{RecordType: 1300, Sequence: 1, Payload: t})
+		start := make(chan struct{})
+		var wg sync.WaitGroup
+		var ok atomic.Int32
+		for g := 0; g < G; g++ {
+			wg.Add(1)
+			go func() {
+				defer wg.Done()
+				<-start
+				if r.Close() == nil {
+					ok.Add(1)
+				}
+			}()
+		}
+		close(start)
+		wg.Wait()
+		rounds++
+		if n := ok.Load(); n != 1 {
+			findings = append(findings, Finding{"close-count", fmt.Sprintf("round %d: %d of %d goroutines released together got nil from Close (exactly one must)", i, n, G)})
+		}
+		if n := atomic.LoadInt32(&t.count); n != 1 {
+			findings = append(findings, Finding{"not-exactly-once", fmt.Sprintf("round %d: the buffered message was delivered %d times by concurrent Close calls", i, n)})
+		}
+	}
+	return rounds, findings
+}
